@@ -421,6 +421,8 @@ class Recorder:
 
     def __init__(self):
         self.fixed, self.auto, self.excess, self.collapse, self.wrapper = [], [], [], [], []
+        self.layouts = []        # calls of table_layout
+        self.preferred = []      # first computation of table_and_columns_preferred_widths per table
         self.current = None      # (html, info) of the document being rendered
 
     @contextlib.contextmanager
@@ -458,6 +460,50 @@ class Recorder:
             if getattr(mod, 'table_wrapper_width', None) is orig_wrapper:
                 patched[mod] = orig_wrapper
                 mod.table_wrapper_width = wrapper_width
+
+        block_mod = importlib.import_module('weasyprint.layout.block')
+        orig_layout = block_mod.table_layout
+
+        def table_layout(context, table, bottom_space, skip_stack, containing_block, page_is_empty,
+                         absolute_boxes, fixed_boxes):
+            import copy
+            skip = copy.deepcopy(skip_stack)
+            result = orig_layout(context, table, bottom_space, skip_stack, containing_block, page_is_empty,
+                                 absolute_boxes, fixed_boxes)
+            rec.layouts.append({
+                'doc': rec.current, 'table': table, 'skip': skip, 'bs': bottom_space,
+                'empty': bool(page_is_empty), 'page_bottom': context.page_bottom,
+                # the original box keeps the decoration removal / collapsed top border of this call
+                'content_y': table.content_box_y(), 'result': result[:3]})
+            return result
+
+        block_mod.table_layout = table_layout
+        orig_pref = preferred.table_and_columns_preferred_widths
+
+        def pref(context, box, outer=True):
+            table = box.get_wrapped_table()
+            if context.tables.get(table):
+                return orig_pref(context, box, outer)
+            record = None
+            try:
+                args, grid_width = preferred_input(
+                    context, table, (preferred.min_content_width, preferred.max_content_width,
+                                     preferred.table_cell_min_max_content_width))
+                if grid_width and any(r for r in args[2]):
+                    record = {'doc': rec.current, 'args': args}
+            except NotFinite:
+                record = None
+            result = orig_pref(context, box, outer)
+            if record is not None and context.tables.get(table):
+                try:
+                    record['out'] = preferred_out(context.tables[table][False])
+                    rec.preferred.append(record)
+                except NotFinite:
+                    pass
+            return result
+
+        preferred.table_and_columns_preferred_widths = pref
+        table_mod.table_and_columns_preferred_widths = pref
 
         def fixed(box):
             table = box.get_wrapped_table()
@@ -523,6 +569,9 @@ class Recorder:
         try:
             yield self
         finally:
+            preferred.table_and_columns_preferred_widths = orig_pref
+            table_mod.table_and_columns_preferred_widths = orig_pref
+            block_mod.table_layout = orig_layout
             for mod, orig in patched.items():
                 mod.table_wrapper_width = orig
             table_mod.fixed_table_layout, table_mod.auto_table_layout = orig_fixed, orig_auto
@@ -677,6 +726,8 @@ def g_doc(rng, flavour):
             rstyle = ''
             if collapse and rng.random() < 0.1:
                 rstyle = f' style="border:{css_len(_q(rng, 1, 4, (1,)))} {rng.choice(BORDER_STYLES[2:])} green"'
+            elif not paged and rng.random() < 0.12:
+                rstyle = f' style="height:{css_len(_q(rng, 0, 60, (1, 2)))}"'
             rows.append(f'<tr{rstyle}>' + ''.join(cells) + '</tr>')
         return rows
 
@@ -1159,3 +1210,439 @@ def clause_cases(table, all_tables=None, layout_widths=None):
                         out.append((sx.line('wordfits', num(cell.style['font_size']), lens, num(cell.width)),
                                     'ok', 'min-content'))
     return out
+
+
+# ---------------------------------------------------------------- predictive pagination (table_layout calls)
+
+def g_atomic_doc(rng):
+    """A table whose rows are never split: every cell holds one word and all cells share padding and
+    border; forced breaks on rows / row groups, `break-inside: avoid` on row groups, thead / tfoot,
+    several tbody, captions, content before the table, both border models."""
+    fs = rng.choice([8, 10, 16])
+    n_cols = rng.choice([1, 2, 3, 4])
+    page_w = rng.choice([200, 300])
+    page_h = rng.choice([50, 60, 80, 100, 120, 160])
+    collapse = rng.random() < 0.35
+    spacing = _q(rng, 0, 6) if rng.random() < 0.7 else F(0)
+    pad = _q(rng, 0, 4, (1, 2))
+    border = _q(rng, 0, 3, (1, 2)) if rng.random() < 0.6 else F(0)
+    table_border = _q(rng, 0, 6, (1, 2)) if rng.random() < 0.5 else F(0)
+    table_pad = _q(rng, 0, 5, (1, 2)) if (not collapse and rng.random() < 0.2) else F(0)
+
+    def brk(p):
+        r = rng.random()
+        if r < p:
+            return rng.choice(['page', 'page', 'page', 'right', 'left'])
+        return None
+
+    def rows(n, label, start, allow_breaks=True):
+        out = []
+        for y in range(n):
+            st = []
+            if allow_breaks:
+                b = brk(0.06)
+                if b:
+                    st.append(f'break-before:{b}')
+                b = brk(0.05)
+                if b:
+                    st.append(f'break-after:{b}')
+            cells = ''.join(f'<td>{label}{start + y}</td>' if x == 0 else f'<td>{rng.choice(WORDS)}</td>'
+                            for x in range(n_cols))
+            out.append(f'<tr style="{";".join(st)}">{cells}</tr>')
+        return ''.join(out)
+
+    n_head = rng.choice([0, 0, 1, 1, 2])
+    n_foot = rng.choice([0, 0, 0, 1, 2])
+    parts = []
+    if n_head:
+        parts.append(f'<thead>{rows(n_head, "h", 0, False)}</thead>')
+    body_groups = []
+    start = 0
+    for _ in range(rng.choice([1, 1, 2, 3, 4])):
+        k = rng.choice([1, 2, 3, 4, 6, 9, 14])
+        st = []
+        if rng.random() < 0.2:
+            st.append('break-inside:avoid')
+        b = brk(0.1)
+        if b:
+            st.append(f'break-before:{b}')
+        b = brk(0.08)
+        if b:
+            st.append(f'break-after:{b}')
+        parts.append(f'<tbody style="{";".join(st)}">{rows(k, "r", start)}</tbody>')
+        body_groups.append(k)
+        start += k
+    if n_foot:
+        parts.append(f'<tfoot>{rows(n_foot, "f", 0, False)}</tfoot>')
+    caption = rng.choice([None, None, 'top', 'bottom'])
+    cap = f'<caption style="caption-side:{caption}">cap</caption>' if caption else ''
+    before = f'<p style="margin:0">{rng.choice(WORDS)}</p>' * rng.choice([0, 0, 1, 2, 3])
+    tstyle = (f'border-collapse:{"collapse" if collapse else "separate"};border-spacing:{css_len(spacing)};'
+              f'border:{css_len(table_border)} solid black;padding:{css_len(table_pad)}')
+    if rng.random() < 0.15:
+        tstyle += ';break-inside:avoid'
+    css = (f'@page{{size:{page_w}px {page_h}px;margin:0}}'
+           f'body{{margin:0;font:{fs}px weasyprint;line-height:{fs}px}}'
+           f'td{{padding:{css_len(pad)};border:{css_len(border)} solid gray}}')
+    html = f'<style>{css}</style>{before}<table style="{tstyle}">{cap}{"".join(parts)}</table>'
+    info = {'flavour': 'atomic', 'n_cols': n_cols, 'n_body': start, 'body_groups': body_groups,
+            'labels': [f'r{i}' for i in range(start)], 'n_head': n_head, 'n_foot': n_foot,
+            'layout': 'auto', 'collapse': collapse, 'rtl': False, 'caption': caption, 'page_h': page_h}
+    return html, info
+
+
+def _skip_depth(skip):
+    """Depth of a skip stack / resume_at dict: 1 = {group: None}, 2 = {group: {row: None}}, 3+ = cells."""
+    depth = 0
+    while skip:
+        depth += 1
+        if depth > 2:
+            return depth
+        skip = next(iter(skip.values()))
+    return depth
+
+
+def layout_call_cases(records):
+    """Protocol lines for the recorded `table_layout` calls of one document (one table).
+
+    -> (cases, note): cases = [(line, implementation output, tags)], note = why the table was skipped."""
+    from vlib import sx
+    if not records:
+        return [], 'no-call'
+    table = records[0]['table']
+    if any(r['table'] is not table for r in records):
+        return [], 'several-tables'
+    # rows must be atomic: no call may resume inside a cell
+    for r in records:
+        if _skip_depth(r['skip']) > 2 or _skip_depth(r['result'][1]) > 2:
+            return [], 'split-row'
+    collapse = table.style['border_collapse'] == 'collapse'
+    sp = F(0) if collapse else num(table.style['border_spacing'][1])
+    groups = list(table.children)
+    has_head = bool(groups) and groups[0].is_header
+    has_foot = bool(groups) and groups[-1].is_footer
+    offset = 1 if has_head else 0
+    bodies = [g for g in groups if not (g.is_header or g.is_footer)]
+    # heights of the rows, from every fragment any call produced
+    heights = {}
+    for r in records:
+        new_table = r['result'][0]
+        if new_table is None:
+            continue
+        for g in new_table.children:
+            key = 'h' if g.is_header else 'f' if g.is_footer else g.index - offset
+            for i, row in enumerate(g.children):
+                ri = i if key in ('h', 'f') else row.index
+                h = num(row.height)
+                if heights.setdefault((key, ri), h) != h:
+                    return [], 'row-height-varies'
+
+    def group_wire(g, key):
+        rows = []
+        for i, row in enumerate(g.children):
+            if (key, i) not in heights:
+                return None
+            rows.append([heights[(key, i)], row.style['break_before'], row.style['break_after']])
+        return [rows, g.style['break_before'], g.style['break_after'], g.style['break_inside']]
+
+    header = group_wire(groups[0], 'h') if has_head else 'none'
+    footer = group_wire(groups[-1], 'f') if has_foot else 'none'
+    body_wire = [group_wire(g, k) for k, g in enumerate(bodies)]
+    if header is None or footer is None or any(b is None for b in body_wire):
+        return [], 'row-never-rendered'
+    cases = []
+    for r in records:
+        skip = r['skip']
+        if skip:
+            (g, inner), = skip.items()
+            skip_wire = [g - offset, 'none' if not inner else next(iter(inner))]
+        else:
+            skip_wire = 'none'
+        y = num(r['content_y']) + (sp if not skip else 0)
+        if r['bs'] == -math.inf or r['bs'] == math.inf:
+            continue
+        line = sx.line('tablefrag', sp, table.style['break_inside'], num(r['page_bottom']), header, footer, body_wire, skip_wire, y,
+                       num(r['bs']), r['empty'])
+        new_table, resume_at, next_page = r['result']
+        tags = ['first' if not skip else 'continued', 'empty-page' if r['empty'] else 'used-page']
+        if new_table is None:
+            out = 'none'
+            tags.append('not-placed')
+        else:
+            kids = list(new_table.children)
+            hd = bool(kids) and kids[0].is_header
+            ft = bool(kids) and kids[-1].is_footer
+            gs = ' '.join(
+                f'({g.index - offset} ({" ".join(str(row.index) for row in g.children)}) '
+                f'{sx.atom(num(g.position_y))} {sx.atom(num(g.height))})'
+                for g in kids if not (g.is_header or g.is_footer))
+            if resume_at:
+                (g, inner), = resume_at.items()
+                res = f'({g - offset} {"none" if not inner else next(iter(inner))})'
+            else:
+                res = 'none'
+            end_y = num(new_table.content_box_y()) + num(new_table.height)
+            out = (f'frag {str(hd).lower()} {str(ft).lower()} ({gs}) {res} {next_page["break"]} '
+                   f'{sx.atom(end_y)}')
+            tags += [f'header-{hd}' if has_head else 'no-thead', f'footer-{ft}' if has_foot else 'no-tfoot',
+                     'resume-row' if resume_at and res.split()[1] != 'none)' else
+                     'resume-group' if resume_at else 'complete',
+                     'forced' if next_page['break'] != 'any' else 'unforced']
+        cases.append((line, out, tags))
+    return cases, None
+
+
+# ---------------------------------------------------------------- table_and_columns_preferred_widths
+
+def _pct_parts(style):
+    mn = style['min_width']
+    mx = style['max_width']
+    min_pct = num(mn.value) if mn != 'auto' and mn.unit == '%' else F(0)
+    max_pct = num(mx.value) if mx != 'auto' and mx.unit == '%' and math.isfinite(mx.value) else 'inf'
+    return min_pct, max_pct
+
+
+def pbox_wire(min_w, max_w, style):
+    min_pct, max_pct = _pct_parts(style)
+    return [num(min_w), num(max_w), dim_wire(style_dim(style['width'])), min_pct, max_pct]
+
+
+def preferred_input(context, table, helpers):
+    """Protocol arguments of `preferred` read from a real (or mock) table box; `helpers` gives the
+    three width functions the real code calls on cells / columns / groups."""
+    min_w, max_w, cell_min_max = helpers
+    rows = []
+    grid_width = 0
+    for group in table.children:
+        for row in group.children:
+            cells = []
+            for cell in row.children:
+                if cell.colspan == 1:
+                    a, b = cell_min_max(context, cell)
+                else:
+                    a, b = min_w(context, cell), max_w(context, cell)
+                cells.append([cell.grid_x, cell.colspan, cell.rowspan, pbox_wire(a, b, cell.style)])
+                grid_width = max(grid_width, cell.grid_x + cell.colspan)
+            rows.append(cells)
+    groups, cols = [], []
+    for cg in table.column_groups:
+        for col in cg.children:
+            if len(cols) == grid_width:
+                break
+            groups.append(pbox_wire(min_w(context, cg), max_w(context, cg), cg.style))
+            cols.append(pbox_wire(min_w(context, col), max_w(context, col), col.style))
+    style = table.style
+    width = style['width']
+    mn, mx = style['min_width'], style['max_width']
+    return [style['border_collapse'] != 'separate', num(style['border_spacing'][0]), rows, groups, cols,
+            num(width.value) if width != 'auto' and width.unit == 'px' else 'none',
+            num(mn.value) if mn != 'auto' and mn.unit != '%' else F(0),
+            num(mx.value) if mx != 'auto' and mx.unit != '%' and math.isfinite(mx.value) else 'inf'], grid_width
+
+
+def preferred_out(result):
+    from vlib import sx
+    tmin, tmax, mins, maxs, pcts, cons, spacing, _grid = result
+    return (f'ok {sx.atom(num(tmin))} {sx.atom(num(tmax))} {show_rats(mins)} {show_rats(maxs)} {show_rats(pcts)} '
+            f'({" ".join("true" if c else "false" for c in cons)}) {sx.atom(num(spacing))}')
+
+
+def _pref_style(width, collapse=False, spacing=F(0), min_w='auto', max_w='auto'):
+    Dimension = _mods()[0]
+    zero = Dimension(0, 'px')
+    return {'width': dim_style(width), 'min_width': min_w, 'max_width': max_w,
+            'margin_left': zero, 'margin_right': zero, 'padding_left': zero, 'padding_right': zero,
+            'border_left_width': 0, 'border_right_width': 0,
+            'border_collapse': 'collapse' if collapse else 'separate', 'border_spacing': (spacing, spacing)}
+
+
+def call_preferred(spec):
+    """Real `table_and_columns_preferred_widths` on a mock table; the intrinsic widths of the
+    individual boxes (text measurement) are stubbed by attributes of the mock boxes.
+
+    spec = dict(collapse, spacing, rows=[[(gx, colspan, rowspan, (min, max, dim, min%, max%))]],
+    colgroups=[((min, max, dim), [(min, max, dim)])], width, min_w, max_w) -> (line args, output)."""
+    Dimension, boxes, _, preferred = _mods()
+
+    def pct_style(width, min_pct=None, max_pct=None):
+        st = _pref_style(width, spec['collapse'], spec['spacing'])
+        if min_pct:
+            st['min_width'] = Dimension(min_pct, '%')
+        if max_pct is not None:
+            st['max_width'] = Dimension(max_pct, '%')
+        return st
+
+    groups = []
+    row_boxes = []
+    for row in spec['rows']:
+        cells = []
+        for gx, colspan, rowspan, (mn, mx, width, min_pct, max_pct) in row:
+            cell = boxes.TableCellBox('td', pct_style(width, min_pct, max_pct), None, [])
+            cell.grid_x, cell.colspan, cell.rowspan = gx, colspan, rowspan
+            cell._min, cell._max = mn, mx
+            cells.append(cell)
+        row_boxes.append(boxes.TableRowBox('tr', {}, None, cells))
+    groups.append(boxes.TableRowGroupBox('tbody', {}, None, row_boxes))
+    tstyle = _pref_style(spec['width'], spec['collapse'], spec['spacing'])
+    if spec['min_w'] is not None:
+        tstyle['min_width'] = Dimension(spec['min_w'], 'px')
+    if spec['max_w'] is not None:
+        tstyle['max_width'] = Dimension(spec['max_w'], 'px')
+    table = boxes.TableBox('table', tstyle, None, groups)
+    cgs = []
+    for (gmn, gmx, gwidth), cols in spec['colgroups']:
+        col_boxes = []
+        for cmn, cmx, cwidth in cols:
+            col = boxes.TableColumnBox('col', pct_style(cwidth), None, [])
+            col._min, col._max = cmn, cmx
+            col_boxes.append(col)
+        cg = boxes.TableColumnGroupBox('colgroup', pct_style(gwidth), {'span': '1'}, col_boxes)
+        cg._min, cg._max = gmn, gmx
+        cgs.append(cg)
+    table.column_groups = tuple(cgs)
+    wrapper = boxes.BlockBox('table', _pref_style(('auto',)), None, [table])
+    wrapper.is_table_wrapper = True
+    context = _Ctx()
+    stubs = {
+        'min_content_width': lambda ctx, box, outer=True: box._min,
+        'max_content_width': lambda ctx, box, outer=True: box._max,
+        'table_cell_min_max_content_width': lambda ctx, box, outer=True: (box._min, box._max)}
+    saved = {name: getattr(preferred, name) for name in stubs}
+    helpers = (stubs['min_content_width'], stubs['max_content_width'], stubs['table_cell_min_max_content_width'])
+    args, _ = preferred_input(context, table, helpers)
+    try:
+        for name, fn in stubs.items():
+            setattr(preferred, name, fn)
+        try:
+            result = preferred.table_and_columns_preferred_widths(context, wrapper, outer=False)
+        except Exception as exc:  # noqa: BLE001
+            return args, f'err:{type(exc).__name__}'
+    finally:
+        for name, fn in saved.items():
+            setattr(preferred, name, fn)
+    return args, preferred_out(result)
+
+
+def g_pref_spec(rng, adv=False):
+    gw = rng.choice([1, 2, 2, 3, 3, 4, 5])
+    n_rows = rng.choice([1, 2, 2, 3, 4])
+    occupied = [set() for _ in range(n_rows)]
+
+    def dim():
+        r = rng.random()
+        if r < 0.55:
+            return ('auto',)
+        if r < 0.75:
+            return ('px', g_small(rng, 0, 80, adv))
+        return ('pct', rng.choice([F(10), F(20), F(25), F(40), F(50), F(60), F(100), F(25, 2)]))
+
+    def widths():
+        mn = g_small(rng, 0, 40, adv)
+        mx = mn + (g_small(rng, 0, 80) if rng.random() < 0.8 else 0)
+        if adv and rng.random() < 0.2:
+            mx = g_small(rng, 0, 40, True)
+        return mn, mx
+
+    rows = []
+    for y in range(n_rows):
+        cells = []
+        x = 0
+        while x < gw:
+            if x in occupied[y]:
+                x += 1
+                continue
+            if rng.random() < 0.1:
+                x += 1           # a hole in the grid
+                continue
+            colspan = 1 if rng.random() < 0.6 else rng.randrange(1, gw - x + 1)
+            for k in range(colspan):
+                if x + k in occupied[y]:
+                    colspan = k
+                    break
+            rowspan = 1 if rng.random() < 0.8 else rng.randrange(1, n_rows - y + 1)
+            for yy in range(y + 1, y + rowspan):
+                occupied[yy].update(range(x, x + colspan))
+            mn, mx = widths()
+            min_pct = rng.choice([F(5), F(30)]) if rng.random() < 0.05 else None
+            max_pct = rng.choice([F(15), F(45)]) if rng.random() < 0.05 else None
+            cells.append((x, colspan, rowspan, (mn, mx, dim(), min_pct, max_pct)))
+            x += colspan
+        rows.append(cells)
+    colgroups = []
+    n = 0
+    while n < gw + (1 if adv else 0) and rng.random() < 0.5:
+        k = rng.randrange(1, 3)
+        cols = []
+        for _ in range(k):
+            mn, mx = widths() if rng.random() < 0.3 else (F(0), F(0))
+            cols.append((mn, mx, dim()))
+        colgroups.append(((F(0), F(0), dim()), cols))
+        n += k
+    return {'collapse': rng.random() < 0.3, 'spacing': g_small(rng, 0, 8) if rng.random() < 0.7 else F(0),
+            'rows': rows, 'colgroups': colgroups, 'width': dim() if rng.random() < 0.5 else ('auto',),
+            'min_w': g_small(rng, 0, 300) if rng.random() < 0.15 else None,
+            'max_w': g_small(rng, 0, 300) if rng.random() < 0.15 else None}
+
+
+def g_small(rng, lo, hi, adv=False):
+    if adv and rng.random() < 0.25:
+        return rng.choice([F(0), -F(rng.randrange(1, 50)), F(10**9), F(1, 3)])
+    den = rng.choice([1, 1, 2, 4, 3])
+    return F(rng.randrange(lo * den, hi * den + 1), den)
+
+
+# ---------------------------------------------------------------- row height algorithm (one group)
+
+def row_heights_case(table, group):
+    """Protocol arguments and implementation output of `rowheights` for one row group of a table laid
+    out in a single fragment: the cells' boxes *before* the alignment / stretching passes are
+    reconstructed from the final boxes (computed paddings from the style, baseline kept by the layout)."""
+    from vlib import sx
+    collapse = table.style['border_collapse'] == 'collapse'
+    sp = F(0) if collapse else num(table.style['border_spacing'][1])
+    rows_wire = []
+    out_rows = []
+    pending = []          # (rows left, cell)
+    for row in group.children:
+        height = row.style['height']
+        if height != 'auto' and height.unit != 'px':
+            return None
+        cells = []
+        for cell in row.children:
+            pt, pb = cell.style['padding_top'], cell.style['padding_bottom']
+            if pt.unit != 'px' or pb.unit != 'px':
+                return None
+            cells.append([cell.rowspan, num(cell.border_top_width), num(pt.value), num(cell.height),
+                          num(pb.value), num(cell.border_bottom_width), cell.vertical_align,
+                          num(cell.baseline) if cell.vertical_align == 'baseline' else F(0)])
+        rows_wire.append(['auto' if height == 'auto' else num(height.value), cells])
+        every = pending + [(c.rowspan, c) for c in row.children]
+        ending = [c for k, c in every if k == 1]
+        pending = [(k - 1, c) for k, c in every if k != 1]
+        pads = ' '.join(f'({sx.atom(num(c.padding_top))} {sx.atom(num(c.padding_bottom))})' for c in ending)
+        # without baseline-aligned cells the code stores an absolute y that later translations of the
+        # group (footer, margins) leave stale: only the relative baseline is compared
+        has_baseline = any(c.vertical_align == 'baseline' for c in row.children)
+        baseline = sx.atom(num(row.baseline)) if has_baseline else 'auto'
+        out_rows.append(f'({sx.atom(num(row.position_y))} {sx.atom(num(row.height))} {baseline} ({pads}))')
+    if not group.children:
+        return None
+    args = [num(group.children[0].position_y), sp, rows_wire]
+    return args, '(' + ' '.join(out_rows) + ')'
+
+
+def preferred_unstable(out):
+    """The code computes `1 / (len(...) or 1)` and `(100 - sum(pcts)) / 100` in binary floats even for
+    exact inputs: a percentage that is a rounding residue (|p| < 1e-9, not 0) or a sum within 1e-9 of
+    100 without being 100 flips the `if percentage` / `denominator == 0` tests.  Such results are not
+    compared (counted as float_rounding)."""
+    from vlib import sx
+    if not out.startswith('ok'):
+        return False
+    items = sx.loads_line(out)
+    pcts = [Fraction(x) for x in items[5]]
+    tiny = Fraction(1, 10**9)
+    if any(p != 0 and abs(p) < tiny for p in pcts):
+        return True
+    total = sum(pcts)
+    return total != 100 and abs(total - 100) < tiny
